@@ -207,4 +207,31 @@ def sweep(ctx, n):
                               "desc": f"after `{attr} = {val!r}` ({outcome}) polarization={P!r} and magnetization={Mg!r} (or getJ/getM inside the body) no longer describe the same excitation",
                               "replay": {"class": cls, "attribute": attr, "value": repr(val), "outcome": outcome, "polarization": repr(P), "magnetization": repr(Mg)}})
                 break
+    # the caller keeps using the array it assigned (one scratch buffer for several magnets, `arr *= 0.5` afterwards): the
+    # object's polarization / magnetization views and getJ / getM must keep describing the excitation that was assigned
+    for cls in MAGNETS:
+        s = make(cls, nps)
+        ip = interior_points(cls, s, nps, 1)
+        for attr, scale in (("polarization", 1.0), ("magnetization", 1e6)):
+            buf = np.ascontiguousarray(nps.uniform(0.3, 1, 3) * scale, dtype=np.float64)
+            setattr(s, attr, buf)
+            P0, M0 = np.array(s.polarization, dtype=float), np.array(s.magnetization, dtype=float)
+            assigned = buf.copy()
+            buf *= -0.5
+            buf[rng.randrange(3)] = 7.0 * scale
+            done += 1
+            P, Mg = np.asarray(s.polarization, dtype=float), np.asarray(s.magnetization, dtype=float)
+            ok = bool(np.array_equal(P, P0) and np.array_equal(Mg, M0) and np.allclose(P, mu_0 * Mg, rtol=1e-8, atol=0))
+            if ok and ip is not None:
+                with warnings.catch_warnings():
+                    warnings.simplefilter("ignore")
+                    Jm, Mm = magpy.getJ(s, ip).reshape(-1, 3)[0], magpy.getM(s, ip).reshape(-1, 3)[0]
+                ok = bool(np.allclose(Jm, P0, rtol=1e-12, atol=0) and np.allclose(Mm, M0, rtol=1e-8, atol=0))
+            if not ok:
+                fails.append({"key": f"excitation-follows-callers-array:{attr}",
+                              "desc": f"{cls}: after `{attr} = arr` the caller changed `arr` in place; the object's polarization / magnetization (or getJ / getM inside the body) "
+                                      f"changed with it or no longer agree: polarization {P0.tolist()} -> {P.tolist()}, magnetization {M0.tolist()} -> {Mg.tolist()}",
+                              "replay": {"class": cls, "attribute": attr, "assigned": assigned.tolist(), "array_afterwards": buf.tolist(),
+                                         "polarization": P.tolist(), "magnetization": Mg.tolist()}})
+                break
     return fails, {"c02_rows": done, "c02_per_class": per, "c02_nonfinite_rows_left_to_C15": nonfinite_rows}
